@@ -102,8 +102,16 @@ class Setup:
         if case.get("ctor", "matrix") == "matrix":
             style = case.get("style", "alpha")
             kw = {} if style == "default" else {"generator_style": style}
-            mat = raw if case.get("as_list") else np.array(raw)
+            mat = [list(r) for r in raw] if case.get("as_list") else np.array(raw)
             self.G = coxeter.CoxeterGroup(matrix=mat, **kw)
+            # the caller fills its work array / list with the next matrix afterwards
+            if isinstance(mat, np.ndarray):
+                mat[...] = 2
+                np.fill_diagonal(mat, 1)
+            else:
+                for r in mat:
+                    for jj in range(len(r)):
+                        r[jj] = 2
             want = [ALPHA[i] if style in ("alpha", "default") else "s%d" % i for i in range(n)]
             ctx.check(list(self.G.ordered_gens) == want, "generator names of the matrix constructor",
                       got=list(self.G.ordered_gens), want=want)
@@ -681,6 +689,36 @@ def body_images(case, ctx):
     if worst > 1.0:
         ctx.fail("two distinct accepted shortlex words have the same image under "
                  "canonical_representation()", words=[S.w(pair[0]), S.w(pair[1])], matrix=S.m)
+    # the documented way to get the ball: rep.automaton_accepted(automaton, L) - exactly the
+    # accepted words, each once, with the images of those words (also for finite groups,
+    # whose automata have dead ends, and for the even-length variant, whose labels are words)
+    # (labels of multi-character generator names are single generators, not words)
+    am, aw = rep.automaton_accepted(sl, L, with_words=True, edge_words=(S.width == 1))
+    ctx.check(sorted(aw) == sorted(sl.enumerate_words(L)),
+              "automaton_accepted(shortlex automaton, L) returns the accepted words, each once",
+              got=len(aw), want=N, matrix=S.m)
+    am = np.asarray(am, dtype=float)
+    ctx.check(am.shape == (N, S.n, S.n), "automaton_accepted: one matrix per accepted word",
+              got=am.shape, want=(N, S.n, S.n))
+    pos = {s_: i for i, s_ in enumerate(sl.enumerate_words(L))}
+    for s_, Mu in zip(aw, am):
+        ref = mats[pos[s_]]
+        ctx.small("automaton_accepted: the matrix of a word is its image",
+                  (Mu - ref) / (1e-9 * max(1.0, float(np.max(np.abs(ref))))), 1.0, word=s_)
+    ev = even_automaton(S, ctx, sl, True)
+    if ev is not None and S.width == 1:
+        Le = max(2, (L // 2))
+        em, ew = rep.automaton_accepted(ev, Le, with_words=True)
+        want_even = sorted(w_ for w_ in sl.enumerate_words(2 * Le) if len(w_) % 2 == 0)
+        ctx.check(sorted(ew) == want_even, "automaton_accepted(even automaton) returns the "
+                  "even-length accepted words, each once", got=len(ew), want=len(want_even),
+                  matrix=S.m)
+        # and its three views list every edge once
+        for v in ev.vertices():
+            eo = list(ev.edges_out(v))
+            ctx.check(len(eo) == len(set(eo)) == len(ev.graph_dict[v]),
+                      "even automaton: every edge listed once in the outgoing view",
+                      vertex=v, edges=eo[:6])
     # conversely: all reduced expressions of one element have one image
     geo = S.G.automaton(shortlex=False)
     gw = [S.cut(s) for s in geo.enumerate_words(min(L, 6))]
